@@ -24,6 +24,7 @@ class _Protocol(ClientProtocol):
             sock.setsockopt(socket.SOL_TCP, socket.TCP_KEEPIDLE, 10)
             sock.setsockopt(socket.SOL_TCP, socket.TCP_KEEPINTVL, 5)
             sock.setsockopt(socket.SOL_TCP, socket.TCP_KEEPCNT, 3)
+        self.client.transport = transport
         super().connection_made(transport)
 
     def connection_ready(self):
@@ -42,6 +43,7 @@ class _Protocol(ClientProtocol):
         self.client.when_connected.set_result(None)
 
     def connection_lost(self, reason):
+        self.client.transport = None
         self.client.when_closed.set_result(None)
 
     def on_publish(self, ident, chan, data):
@@ -73,6 +75,7 @@ class ClientSession(object):
         self.read_queue = asyncio.Queue()
         self.subscriptions = set()
         self.protocol = None
+        self.transport = None
 
         self.when_connected = asyncio.Future()
         self.closing = False
@@ -138,9 +141,11 @@ class ClientSession(object):
 
     async def close(self):
         self.closing = True
-        if self.protocol:
-            self.protocol.transport.close()
-        await self.when_closed
+        if self.transport:
+            self.transport.close()
+            await self.when_closed
+        else:
+            self._ensure_connected.cancel()
 
     def __enter__(self):
         raise TypeError("Use async with instead")
